@@ -36,7 +36,7 @@ def run(ctx):
     ctx.run_rule("A9", r_asm.rule_A9)
     import r_asmsym
     ctx.run_rule("R1asm1", r_asmsym.rule_R1asm_single)
-    ctx.run_rule("R1asmN", r_asmsym.rule_R1asm_many)
+    ctx.run_rule("R1asmH", r_asmsym.rule_R1asm_hash)
     ctx.run_rule("R1asmX", r_asmsym.rule_R1asm_xof)
     ctx.run_rule("K1asm", r_asm.rule_K1asm)
     ctx.run_rule("K4c", r_round.rule_K4_c)
